@@ -128,8 +128,11 @@ TrainStacks == UNION {{v \in [1..R -> TrainRows] :
                       : R \in RSet}
 
 Common == /\ objs = [o \in 1..MaxObj |-> IF o = 1 THEN Source ELSE Null] /\ hist = <<>>
+\* materialised once (TLC evaluates constant definitions at start-up)
+TrainStackList == SetToSeq(TrainStacks)
 FInit == /\ Common
-         /\ bid \in 1..Len(Catalogue) /\ train \in TrainStacks
+         /\ \E i \in 1..Len(TrainStackList) : train = TrainStackList[i]
+         /\ bid \in 1..Len(Catalogue)
          /\ pidx \in {p \in PatSels : LET B == Catalogue[bid] IN Len(PresentSeq(Template(p))) >= Len(B) + 1}
          /\ ProblemOK(bid, train, pidx)
          /\ pc = "prob" /\ comp = <<>> /\ th2 = <<>> /\ cc = 0
